@@ -310,7 +310,10 @@ def check_hpack_sync(p, tag=''):
         a, b = _table(snd.me.encoder), _table(rcv.me.decoder)
         if a is None or b is None:
             continue
-        check(a == b, tag + 'hpack-context-desync:' + name, (a, b))
+        # the decoder may still hold older entries the encoder has already evicted (they
+        # are evicted first and never referenced): what must agree is the encoder's table
+        # as the newest part of the decoder's
+        check(a == b[:len(a)], tag + 'hpack-context-desync:' + name, (a, b))
 
 
 def _quiet(log):
